@@ -78,6 +78,16 @@ def natsOf (s : String) : List Nat :=
 
 /-! ### prim -/
 
+/-- chunks `form:hex` of a hasher history (the update form is a presentation of the same bytes) -/
+def histChunks (chunks : List String) : Option (List (List UInt8)) :=
+  chunks.mapM fun c =>
+    match c.splitOn ":" with
+    | [f, h] => if ["u", "i", "b", "a", "A", "n"].contains f then bytesOfHex h else none
+    | _ => none
+
+def natList (l : List Nat) : String :=
+  if l.isEmpty then "-" else ",".intercalate (l.map toString)
+
 def runPrim (args : List String) : String × String :=
   match args with
   | ["roll", h] =>
@@ -87,6 +97,20 @@ def runPrim (args : List String) : String × String :=
   | ["fnv", h] =>
     match bytesOfHex h with
     | some bs => (toString (fnvUpdate fnvInit bs).toNat, toString (fnvSpec bs).toNat)
+    | none => ("bad-op", "-")
+  | "rollh" :: chunks =>
+    match histChunks chunks with
+    | some cs =>
+      let vals := (cs.foldl (fun (st : Roll × List Nat) c => let r := st.1.update c; (r, st.2 ++ [r.value.toNat])) (Roll.new, [])).2
+      let refs := (cs.foldl (fun (st : List UInt8 × List Nat) c => let p := st.1 ++ c; (p, st.2 ++ [(rollSpec p).toNat])) ([], [])).2
+      (natList vals, natList refs)
+    | none => ("bad-op", "-")
+  | "fnvh" :: chunks =>
+    match histChunks chunks with
+    | some cs =>
+      let vals := (cs.foldl (fun (st : UInt8 × List Nat) c => let r := fnvUpdate st.1 c; (r, st.2 ++ [r.toNat])) (fnvInit, [])).2
+      let refs := (cs.foldl (fun (st : List UInt8 × List Nat) c => let p := st.1 ++ c; (p, st.2 ++ [(fnvSpec p).toNat])) ([], [])).2
+      (natList vals, natList refs)
     | none => ("bad-op", "-")
   | _ => ("bad-op", "-")
 
